@@ -63,7 +63,12 @@ def case(draw, tier):
         n = draw(st.integers(1, 8 if big else 6))
         for _ in range(n):
             plan.append({"p": draw(st.integers(0, len(progs) - 1)), "wave": w})
-    return {"progs": progs, "plan": plan}
+    for p in progs:
+        p["gs_keys"] = ["hv.host.secret"]      # every run reports whether the foreign key is visible in its global state
+    # foreign-context stage: while the main thread holds a GlobalContext over its own state, one worker thread at a time
+    # wires + builds + runs a program, optionally inside a GlobalContext of its own
+    foreign = [{"p": draw(st.integers(0, len(progs) - 1)), "own_ctx": draw(st.booleans())} for _ in range(draw(st.integers(0, 2)))]
+    return {"progs": progs, "plan": plan, "foreign": foreign}
 
 
 def strategy(tier):
@@ -90,7 +95,7 @@ def check(case, ctx) -> Result:
             ref.append((norm_trace(r["trace"]), canon(r.get("recorded")), canon(r.get("error"))))
     finally:
         fresh.close()
-    resp = ctx.request({"op": "batch", "progs": case["progs"], "plan": case["plan"]}, timeout=120)
+    resp = ctx.request({"op": "batch", "progs": case["progs"], "plan": case["plan"], "foreign": case.get("foreign", [])}, timeout=120)
     if resp.get("crash"):
         res.violations.append(Viol("engine_crash", f"batch run died: {resp.get('signal')} hang={resp.get('hang')} {resp.get('stderr', '')[-400:]}", {"hang": bool(resp.get("hang"))}))
         return res
@@ -118,6 +123,30 @@ def check(case, ctx) -> Result:
             res.violations.append(Viol("run_not_reproducible", f"program {p}, use #{uses[p]} of its builder, wave {entry['wave']} ({'alone' if n_alone else 'concurrent'}): {what} differs from the run in a fresh process{detail}",
                                        {"what": what, "reuse": uses[p] > 1, "concurrent": not n_alone}))
             break
+    for run in resp.get("foreign_runs", []):
+        p = run["p"]
+        how = "inside its own GlobalContext" if run["own_ctx"] else "without a context of its own"
+        if run.get("build_error"):
+            res.violations.append(Viol("build_depends_on_history", f"program {p} wired on a worker thread ({how}) while another thread held a GlobalContext was rejected: {run['build_error']}", {"foreign": True}))
+            break
+        got = (norm_trace(run["trace"]), canon(run.get("recorded")), canon(run.get("error")))
+        if got != ref[p]:
+            what = "trace" if got[0] != ref[p][0] else "recorded buffer" if got[1] != ref[p][1] else "error"
+            detail = ""
+            if what == "trace":
+                import json
+                a, b = json.loads(ref[p][0]), run["trace"]
+                k = next((i for i, (x, y) in enumerate(zip(a, b)) if x != y), min(len(a), len(b)))
+                detail = f"; first difference at entry {k}: fresh {str(a[k:k + 1])[:200]} vs here {str(b[k:k + 1])[:200]}"
+            elif what == "error":
+                detail = f": {str(run.get('error'))[:300]}"
+            res.violations.append(Viol("run_not_reproducible", f"program {p} wired and run on a worker thread ({how}) while the main thread held a GlobalContext over its own state: {what} differs from the run in a fresh process{detail}",
+                                       {"what": what, "foreign": True}))
+            break
+    if case.get("foreign") and "host_size" in resp and (resp["host_size"] != 1 or not resp.get("host_secret")):
+        res.violations.append(Viol("foreign_state_written", f"the state selected by the main thread's GlobalContext had 1 key before other threads wired and ran graphs, and {resp['host_size']} afterwards", {"foreign": True}))
+    if case.get("foreign"):
+        res.labels.append("foreign_context_stage")
     for w, runs in waves.items():
         for i in range(len(runs)):
             for j in range(i + 1, len(runs)):
@@ -132,6 +161,6 @@ def check(case, ctx) -> Result:
     if any(v >= 3 for v in uses.values()):
         res.labels.append("builder_reused_3x")
     res.labels.append(f"progs_{len(case['progs'])}")
-    ctx.engine_runs += len(case["plan"]) + len(case["progs"]) - 1   # executions actually performed by the engine
+    ctx.engine_runs += len(case["plan"]) + len(case["progs"]) + len(case.get("foreign", [])) - 1   # executions actually performed by the engine
     res.summary = {"plan": [(e["p"], e["wave"]) for e in case["plan"]][:16], "overlapping_pairs": overlaps}
     return res
